@@ -99,13 +99,14 @@ def mc_module(name, spec_cls, real, latlon, temporal, size, base="Params"):
         "nugget": [_b(0, 128, True, True)] if small else [_b(0, 128, True, True), _b(64, INF, True, False)],
         "anis": [_b(32, 96, True, True)],
     }
+    # besides an ordinary custom interval: the DEFAULT limits with another interval type (still a custom bound)
     if spec_cls != "Plain":
         if spec_cls == "OptDim":
-            custom["opt"] = [_b(0, 256, True, True)]
+            custom["opt"] = [_b(0, 256, True, True), _b(32 * (2 + ob["off"]), 50 * U, False, True)]
         elif spec_cls == "TPL":
-            custom["opt"] = [_b(0, 128, True, True)]
+            custom["opt"] = [_b(0, 128, True, True), _b(ob["lo"], ob["hi"], not ob["lc"], ob["hc"])]
         else:
-            custom["opt"] = [_b(ob["lo"] + 32, ob["lo"] + 160, True, True)]
+            custom["opt"] = [_b(ob["lo"] + 32, ob["lo"] + 160, True, True), _b(ob["lo"], ob["hi"], ob["lc"], not ob["hc"])]
     if spec_cls == "TPLHL":
         lenv, resv = {128}, {64}            # 1/4 + 2 has a rational square root; no second value has dyadic ratios to it
         custom["len_scale"] = [_b(64, 192, True, True)]
